@@ -270,6 +270,31 @@ func (ctx Ctx) typeDecl(doc *ast.CommentGroup, spec *ast.TypeSpec) coq.Decl {
 	}
 	switch goTy := spec.Type.(type) {
 	case *ast.StructType:
+		// the descriptor cannot mention itself: a field whose type contains
+		// the struct by value (through a slice, map or function type) would
+		// make the definition refer to its own name; pointers are just ptrT
+		self := ctx.info.Defs[spec.Name]
+		var selfRef func(e ast.Expr) bool
+		selfRef = func(e ast.Expr) bool {
+			found := false
+			ast.Inspect(e, func(n ast.Node) bool {
+				switch n := n.(type) {
+				case *ast.StarExpr:
+					return false
+				case *ast.Ident:
+					if self != nil && ctx.info.Uses[n] == self {
+						found = true
+					}
+				}
+				return !found
+			})
+			return found
+		}
+		for _, f := range goTy.Fields.List {
+			if selfRef(f.Type) {
+				ctx.unsupported(f, "struct %s contains itself by value (through a slice, map or function type)", spec.Name.Name)
+			}
+		}
 		ty := coq.StructDecl{
 			Name: spec.Name.Name,
 		}
